@@ -71,6 +71,10 @@ class Array(AbstractValueWithQuantityObject, Generic[ValuesType]):
 
     """
 
+    # Let numpy scalars/arrays on the left side of an operator defer to the reflected operators
+    # defined in this class (instead of iterating over this object and dropping its unit).
+    __array_ufunc__ = None
+
     @overload
     def __init__(self, category: Union[str, Quantity]): ...
 
